@@ -258,6 +258,7 @@ def run(ctx: Ctx) -> None:
         rxtie.tie_leaf(ctx, drv, quick)      # translated regular expressions + inline leaf rules (autolink, html_inline, entity)
         from . import pipeline
         pipeline.tie_full(ctx, drv, 2000 if quick else 60000)     # MarkdownIt.parse end to end on the modelled sub-language
+        pipeline.tie_full(ctx, drv, 2500 if quick else 60000, ref=True, render=True)     # MarkdownIt.render end to end: the HTML itself
     finally:
         drv.close()
     ctx.partial += [
